@@ -12,7 +12,7 @@ INT_FORMS = ["0", "00", "0_0", "7", "1_000", "0x_ff", "0XFF", "0o17", "0O1_7", "
 FLOAT_FORMS = ["1.0", "1.", ".5", "1e10", "1E-10", "1_0.0_1", "1e400", "1e-400", "0.0", "-0.0", "3.14j", "1j", "1e3j",
                "0j", "1_1.2_2e1_0", "1.7976931348623157e308", "5e-324", "1e+5", "0e0", "0.e1"]
 STR_FORMS = ["''", '""', "'a'", '"a\'b"', "'''tri'''", '"""a\nb"""', "r'\\n'", "R'\\\\'", "b'x'", "br'\\x'", "rb'\\\\'",
-             "B'\\x00\\xff'", "u'u'", "'\\N{BULLET}'", "'\\x41\\u0041\\U00000041'", "'\\101\\7\\08'", "'\\\n'", "'a' 'b'",
+             "B'\\x00\\xff'", "u'u'", "'\\N{BULLET}'", "'\\x41\\u0041\\U00000041'", "'\\101\\7\\08'", "'\\777'", "b'\\400'", "'\\378\\0'", "'\\\n'", "'a' 'b'",
              "'a' \"b\" '''c'''", "b'a' b'b'", "'\\ud800'", "'\\U0001F600'", "'\\t\\r\\n\\a\\b\\f\\v\\\\\\'\\\"'",
              "f''", "f'{a}'", "f'{a!r:>{b}}'", "f'{a=}'", "f'{{}}'", "f'{a:{b}.{c}}'", "rf'{a}\\n'", "f'{(lambda: a)()}'",
              "f'{a if b else c}'", "f\"{'nested'}\"", "f'{f\"{a}\"}'", "f'{a!s}{b!a}'", "'%s' % a", "'{}'.format(a)"]
